@@ -225,8 +225,18 @@ def h_drift(shape):
         stubs.bind(inp)
         from pulser import Sequence
 
-        seq = Sequence(l2.mk_register("reg3"), mk_eom_device(cfg, shape.get("custom_buffer")))
-        seq.declare_channel("g", "ryd_glob")
+        if shape.get("other"):
+            # a second (reusable-device) channel that is LONGER than the EOM channel at every moment: nothing that happens
+            # on g depends on it
+            import dataclasses as _dc
+
+            seq = Sequence(l2.mk_register("reg3"), _dc.replace(mk_eom_device(cfg, shape.get("custom_buffer")), reusable_channels=True))
+            seq.declare_channel("g", "ryd_glob")
+            seq.declare_channel("other", "ryd_glob")
+            seq.delay(20000, "other")
+        else:
+            seq = Sequence(l2.mk_register("reg3"), mk_eom_device(cfg, shape.get("custom_buffer")))
+            seq.declare_channel("g", "ryd_glob")
         cs = seq._schedule["g"]
         obs = []
         kmax = shape.get("kmax", 12)
@@ -333,6 +343,9 @@ def kernels(tier):
     quick = tier == "quick"
     ks = []
     cfgs = CFGS if quick else CFGS + CFGS_MORE
+    if quick:
+        # (light-shift coefficients other than 1 belong to the quick tier too)
+        cfgs = cfgs + [c for c in CFGS_MORE if "cb" in c or "cr" in c][:2]
     for cfg in cfgs:
         ks.append(("eomcfg", dict(cfg=cfg)))
     for cfg in (CFGS[:1] + CFGS[3:4] if quick else CFGS):
@@ -340,6 +353,8 @@ def kernels(tier):
             for cb in (None, 40):
                 ks.append(("seq", dict(cfg=cfg, program=prog, custom_buffer=cb)))
                 ks.append(("drift", dict(cfg=cfg, program=prog, custom_buffer=cb, kmax=12 if quick else 40)))
+    for prog in PROGRAMS[:3] + PROGRAMS[-2:]:
+        ks.append(("drift", dict(cfg=CFGS[0], program=prog, custom_buffer=None, kmax=12, other=True)))
     ks += [("l1", s) for s in l1.eom_shapes(tier)]
     return ks
 
